@@ -42,10 +42,10 @@ def shards(tier, seed):
     return [{'shard': 'u%d' % i, 'tier': tier, 'seed': seed, 'first': i * per, 'count': per} for i in range(n)]
 
 
-def universe(seed, uid):
-    rng = core.rng_for(seed, PROP, 'uni%d' % uid)
+def universe(seed, uid, attrs=False):
+    rng = core.rng_for(seed, PROP, 'uni%d%s' % (uid, 'a' if attrs else ''))
     o = gen.Opts(sub_names=True, max_types=4, nested_arrays=0.0, styles=('wrapped', 'wrapped', 'bare'), multi_return=False, methods=(1, 3), services=(1, 1),
-                 attrs=False)
+                 attrs=attrs)
     return gen.rand_universe(rng, o, uid=uid)
 
 
@@ -103,7 +103,7 @@ def typecheck(B, t, o, path, out):
             if type(o) is c or getattr(type(o), '__orig__', None) is c:
                 cname = n
         for fn, ft in B.all_fields(cname):
-            typecheck(B, ft, getattr(o, fn, None), '%s.%s' % (path, fn), out)
+            typecheck(B, ft, getattr(o, ft.get('py', fn), None), '%s.%s' % (path, fn), out)
         return
 
 
@@ -532,6 +532,10 @@ def run_universe(R, seed, uid, tier):
         dconfs = rng.sample(dconfs, 2)
     for fmt, wrappers in dconfs:
         dict_mutations(R, ir, fmt, wrappers, rng, tier, repro)
+    # classes with XmlAttribute / XmlData members, which the dict protocols treat as ordinary members of the wrapped type
+    ira = universe(seed, uid, attrs=True)
+    for fmt, wrappers in (dconfs[:1] if tier == 'quick' else dconfs):
+        dict_mutations(R, ira, fmt, wrappers, rng, tier, dict(repro, attrs=True))
     # JsonRpc('spyne'): the JSON conventions inside a versioned envelope, as input protocol
     if uid % 2 == 0 or tier != 'quick':
         dict_mutations(R, ir, 'jsonrpc', False, rng, tier, repro)
@@ -540,11 +544,26 @@ def run_universe(R, seed, uid, tier):
 def run(spec, R):
     for uid in range(spec['first'], spec['first'] + spec['count']):
         run_universe(R, spec['seed'], uid, spec['tier'])
+    si = spec['first'] // max(spec['count'], 1) if spec.get('count') else spec.get('kinds_family', 99)
+    if si < 6:
+        # one member and one attribute of every primitive kind: every slot x every substitute kind, one family per shard
+        from checks import c10
+        fams = [(f, w) for f in ('json', 'yaml', 'msgpack') for w in (False, True)]
+        fmt, wrappers = fams[si]
+        rng = core.rng_for(spec['seed'], PROP, 'kinds%d' % si)
+        ir = c10.all_kinds_universe()
+        ir['services'][0]['methods'] = ir['services'][0]['methods'][:1]        # mk(a: KK): members and attributes
+        dict_mutations(R, ir, fmt, wrappers, rng, 'thorough', {'seed': spec['seed'], 'uid': 9200, 'all_kinds': True})
+        R.count('all_kinds_families')
 
 
 def replay(v, R):
     c = v['repro']
-    run_universe(R, c['seed'], c['uid'], 'thorough')
+    if c.get('all_kinds'):
+        for k in range(6):
+            run({'first': 0, 'count': 0, 'kinds_family': k, 'seed': c['seed'], 'tier': 'quick'}, R)
+    else:
+        run_universe(R, c['seed'], c['uid'], 'thorough')
     for x in R.violations[:10]:
         print('replayed:', x.get('mech'), x.get('what')[:300])
 
